@@ -77,6 +77,11 @@ fn critical(sh: &Shared, who: usize, pts: usize) {
     }
 }
 
+/// MAYV_POISON=1: the mutex is poisoned before anybody else uses it; everybody takes the guards out of the errors
+fn poisoned_on_purpose() -> bool {
+    envn("MAYV_POISON", 0) == 1
+}
+
 fn plain_actor(sh: Arc<Shared>, who: usize, iters: usize, try_pct: u64) {
     let c = mayv::ctx();
     hello(who);
@@ -98,18 +103,31 @@ fn plain_actor(sh: Arc<Shared>, who: usize, iters: usize, try_pct: u64) {
                     c.log("try.ret", 0, 0, None);
                     c.point();
                 }
-                Err(std::sync::TryLockError::Poisoned(_)) => {
-                    c.fail(format!("actor {who}: mutex poisoned"));
-                    return;
+                Err(std::sync::TryLockError::Poisoned(e)) => {
+                    if !poisoned_on_purpose() {
+                        c.fail(format!("actor {who}: mutex poisoned"));
+                        return;
+                    }
+                    // MAYV_POISON=1: the guard inside the error is a guard like any other
+                    let g = e.into_inner();
+                    c.log("try.ret", 0, 1, None);
+                    critical(&sh, who, pts);
+                    UNLOCKS.fetch_add(1, Ordering::SeqCst);
+                    c.log("unlock.call", 0, 0, None);
+                    drop(g);
+                    c.log("unlock.ret", 0, 0, None);
                 }
             }
         } else {
             c.log("lock.call", 0, 0, None);
             let g = match sh.m.lock() {
                 Ok(g) => g,
-                Err(_) => {
-                    c.fail(format!("actor {who}: mutex poisoned"));
-                    return;
+                Err(e) => {
+                    if !poisoned_on_purpose() {
+                        c.fail(format!("actor {who}: mutex poisoned"));
+                        return;
+                    }
+                    e.into_inner()
                 }
             };
             c.log("lock.ret", 0, 0, None);
@@ -133,7 +151,12 @@ fn cv_waiter(sh: Arc<Shared>, who: usize) {
     while !*g {
         c.log("cv.wait.call", 0, 0, None);
         WAITING.store(1, Ordering::SeqCst);
-        g = sh.cv.wait(g).unwrap();
+        // MAYV_CVT=1: the timed flavour (its cancel exit is separate code); the timeout is far away and never fires
+        g = if envn("MAYV_CVT", 0) == 1 {
+            sh.cv.wait_timeout(g, std::time::Duration::from_secs(3600)).unwrap().0
+        } else {
+            sh.cv.wait(g).unwrap()
+        };
         c.log("cv.wait.ret", 0, 0, None);
     }
     critical(&sh, who, 1);
@@ -200,6 +223,19 @@ fn main() {
     run(cfg, move |ctx| {
         ctx.log("mx.actor", 99, 0, None);
         let sh = Arc::new(Shared { m: may::sync::Mutex::new(false), cv: may::sync::Condvar::new(), plain: UnsafeCell::new(0) });
+        if poisoned_on_purpose() {
+            // a holder panics inside the critical section (not recorded: the model starts from the free, poisoned mutex)
+            ctx.record(false);
+            let sh3 = sh.clone();
+            let _ = std::panic::catch_unwind(std::panic::AssertUnwindSafe(move || {
+                let _g = sh3.m.lock().unwrap();
+                panic!("poison the mutex");
+            }));
+            if !sh.m.is_poisoned() {
+                ctx.fail("the mutex is not poisoned after a holder panicked".into());
+            }
+            ctx.record(true);
+        }
         let mut hs: Vec<H> = vec![];
         for (k, kind) in mix.iter().enumerate() {
             let sh2 = sh.clone();
@@ -296,6 +332,12 @@ fn main() {
                 ctx.log("try.ret", 0, 1, None);
                 ctx.log("unlock.call", 0, 0, None);
                 drop(g);
+                ctx.log("unlock.ret", 0, 0, None);
+            }
+            Err(std::sync::TryLockError::Poisoned(e)) if poisoned_on_purpose() => {
+                ctx.log("try.ret", 0, 1, None);
+                ctx.log("unlock.call", 0, 0, None);
+                drop(e.into_inner());
                 ctx.log("unlock.ret", 0, 0, None);
             }
             Err(_) => {
